@@ -437,7 +437,7 @@ func (k *Kernel) mainLoop(ctx context.Context, s *kState, wd *gwatchdog.Watchdog
 			// This channel has a complete proposed header value
 			// that was retrieved out of band from the normal network flow
 			// through the mirror.
-			k.addProposedHeader(ctx, s, ph)
+			k.addFetchedProposedHeader(ctx, s, ph)
 
 		case re := <-k.stateMachineRoundEntranceIn:
 			// The state machine has entered a new round
@@ -479,6 +479,36 @@ func (k *Kernel) mainLoop(ctx context.Context, s *kState, wd *gwatchdog.Watchdog
 			close(sig.Alive)
 		}
 	}
+}
+
+// addFetchedProposedHeader adds a proposed header delivered by the proposed header fetcher.
+//
+// The fetcher only promises a header matching the requested height and hash,
+// and unlike a header arriving through [Mirror.HandleProposedHeader]
+// nothing has validated it yet.
+// The block hash covers the hashes of the validator sets but not the lists themselves,
+// and a committed header's next validator list becomes the voting set of the next height,
+// so the hash and both lists are checked here before the header can reach a view.
+func (k *Kernel) addFetchedProposedHeader(ctx context.Context, s *kState, ph tmconsensus.ProposedHeader) {
+	expHash, err := k.hashScheme.Block(ph.Header)
+	valid := err == nil && bytes.Equal(expHash, ph.Header.Hash) &&
+		ValidatorSetMatchesHashes(k.hashScheme, ph.Header.ValidatorSet) &&
+		ValidatorSetMatchesHashes(k.hashScheme, ph.Header.NextValidatorSet)
+	if !valid {
+		// The fetch is over either way; forget it so that the header can be requested again.
+		if cancel, ok := s.InFlightFetchPHs[string(ph.Header.Hash)]; ok {
+			cancel()
+			delete(s.InFlightFetchPHs, string(ph.Header.Hash))
+		}
+		k.log.Warn(
+			"Dropping fetched proposed header whose hash or validator lists do not check out",
+			"ph_height", ph.Header.Height, "ph_round", ph.Round,
+			"block_hash", glog.Hex(ph.Header.Hash),
+		)
+		return
+	}
+
+	k.addProposedHeader(ctx, s, ph)
 }
 
 // addProposedHeader adds a proposed header to the current round state.
